@@ -7,7 +7,7 @@ CONFIGS = [('system-w', 'rc2'), ('system-w', 'z3')]
 WEAKLY = False
 WANT = 'strong'
 RULE = ('strongly consistent bases with independent-layer and D4 shapes over-weighted (several incomparable minimal falsification sets per layer), depth-3 formulas (multi-clause CNFs), constants; both back-ends judged by the <_w definition on enumerated worlds. Non-trivial = A&B and A&!B both satisfiable; distinct by hash(base, query, back-end).')
-ASSUMPTIONS = ['worlds are enumerated: bases of <= 6 atoms (incl. query atoms outside the signature), <= 8 conditionals, formula depth <= 3', 'reference semantics vf/refmodel.py is the definition quoted in the property (self-tested on textbook instances at start-up)']
+ASSUMPTIONS = ['worlds are enumerated: bases of <= 6 atoms (incl. query atoms outside the signature) and <= 8 conditionals, plus a ~5% share of "wide" bases with 7-8 atoms, 9-13 conditionals or 5-7 layers; formula depth <= 3 (deep equivalent wrappers to depth 9)', 'reference semantics vf/refmodel.py is the definition quoted in the property (self-tested on textbook instances at start-up)']
 TRUSTED = []
 FLOOR = {'quick': 300, 'thorough': 3000}
 BUDGET = {'quick': 90, 'thorough': 1200}
